@@ -401,6 +401,17 @@ def run(tier):
                'concretisation_variants': sum(r['variants'] for r in results),
                'grammar_features_exercised': features,
                'driver_wall_s': round(max(r['wall_s'] for r in results), 1)}
+        if tier == 'thorough':
+            # the Tempo v1 read API (search by tags / duration / limit, tags, tag values, trace by id) goes through other planners
+            # than TraceQL; its content is the subject of the extra check X07 (TempoSearch.tla); part of this property's deep tier
+            import props.x07 as x07
+            xr = x07.run('quick')
+            for v in xr['violations']:
+                viols.append(dict(v, property='C11', signature='tempo-v1|' + v['signature']))
+            cov['tempo_v1_x07'] = {k: xr['coverage'].get(k) for k in ('states', 'transitions', 'traces_validated_against_impl')}
+            cov['states'] += xr['coverage'].get('states', 0)
+            cov['transitions'] += xr['coverage'].get('transitions', 0)
+            cov['traces_validated_against_impl'] += xr['coverage'].get('traces_validated_against_impl', 0)
         return {'level': 'model_checking', 'coverage': cov, 'violations': viols,
                 'assumptions': [
                     'chsql executes the generated SQL as ClickHouse would (reference interpreter; a statement it cannot run is an infrastructure error)',
